@@ -88,6 +88,19 @@ def histories(tier):
         else:
             c = hist.gen_history(rng, n_max=30, overdraw_pct=5, earn_pct=35)
         cases.append(c)
+    # optional unique_id column (exchange order id / transaction hash): nothing requires it to be unique, and one on-chain
+    # transaction is often recorded as several rows; results must not depend on it
+    rng_u = core.Rng(core.seed(), 22)
+    for k, c in enumerate(cases):
+        if k % 5 == 1:
+            rows = c["ins"] + c["outs"] + c["intras"]
+            for r in rows:
+                if rng_u.chance(50):
+                    r["uid"] = f"id{rng_u.below(10 ** 6)}"
+            if len(rows) >= 2:
+                shared = f"tx{rng_u.below(10 ** 6)}"
+                for r in rng_u.shuffle(list(rows))[:rng_u.range(2, min(4, len(rows)))]:
+                    r["uid"] = shared
     return cases
 
 
